@@ -13,8 +13,8 @@ def fr(x):
     return Fraction(x[0], x[1])
 
 
-def close(a, b):
-    return abs(float(a) - float(b)) <= 1e-12 * max(1.0, abs(float(b)))
+def close(a, b, rel=1e-12):
+    return abs(float(a) - float(b)) <= rel * max(1.0, abs(float(b)))
 
 
 def replay(col, case):
@@ -54,6 +54,18 @@ def replay(col, case):
     expm = [float(fr(x)) for x in case["mean"]]
     if got is not None and not all(close(a, b) for a, b in zip(np.asarray(got).ravel(), expm)):
         col.violation("mean_quantile_score-wrong-value", dict(rep, expected=expm, observed=np.asarray(got).tolist()))
+    # a sample of 5000 (the property names samples up to 10^4): the case's observations / estimates repeated and cut;
+    # the mean score is the exact mean of the per-element scores TLC printed
+    big = 5000
+    reps = -(-big // n)
+    idx = (list(range(n)) * reps)[:big]
+    from fractions import Fraction
+    score_fr = [[fr(x) for x in row] for row in case["score"]]
+    want_big = [float(sum((score_fr[i][k] for i in idx), Fraction(0)) / big) for k in range(3)]
+    got = call("mean_quantile_score", scores.mean_quantile_score, y_tau[idx], obs[idx], taus)
+    col.count(1)
+    if got is not None and not all(close(a, b, 1e-11) for a, b in zip(np.asarray(got).ravel(), want_big)):
+        col.violation("mean_quantile_score-wrong-value-large-sample", dict(rep, n=big, expected=want_big, observed=np.asarray(got).tolist()))
     # inconsistent shapes are rejected
     try:
         scores.quantile_score(y_tau, np.append(obs, 1.0), taus)
@@ -107,6 +119,17 @@ def replay(col, case):
             if gs is not None and (np.ndim(gs) != 0 or not close(gs, fr(case[key]))):
                 col.violation(name + "-wrong-value-shape-" + sname, dict(rep, truth=case["truth"],
                               expected=float(fr(case[key])), observed=np.asarray(gs, dtype=float).tolist()))
+        # (n, 2) arrays: the same samples twice; prediction and truth in DIFFERENT memory layouts (C and Fortran order,
+        # a transposed view) - samples are paired by position, not by memory address
+        p2 = np.column_stack([est, est[::-1]])
+        t2 = np.column_stack([truth, truth[::-1]])
+        for lname, pp, tt in (("C-F", np.ascontiguousarray(p2), np.asfortranarray(t2)), ("F-C", np.asfortranarray(p2), np.ascontiguousarray(t2)),
+                              ("view-C", np.ascontiguousarray(p2.T).T, np.ascontiguousarray(t2))):
+            gk = call(name, fn, pp, tt)
+            col.count(1)
+            if gk is not None and (np.ndim(gk) != 0 or not close(gk, fr(case[key]))):
+                col.violation(name + "-wrong-value-shape-nk-" + lname, dict(rep, truth=case["truth"], expected=float(fr(case[key])),
+                                                                           observed=np.asarray(gk, dtype=float).tolist()))
         # order of the samples is irrelevant; a common scale factor cancels
         perm = np.arange(n)[::-1]
         g2 = call(name, fn, est[perm] * 4.0, truth[perm] * 4.0)
